@@ -2116,7 +2116,15 @@ func (a *Authenticator) handleClientAuthentication(ctx context.Context, negotiat
 	// Check if it's "YES" or if the negotiated auth method is not NONE
 
 	if !authRequired {
+		// The server will not run an authentication exchange. A client whose own
+		// policy REQUIRES authentication must not report success on that basis.
+		if a.config != nil && a.config.Authentication == SecurityRequired {
+			return fmt.Errorf("server declined authentication, which this client requires")
+		}
 		slog.Debug("🔐 CLIENT: No authentication required", "destination", "cedar")
+		// Report what actually happened on the wire, not what the client's own
+		// level alone would have decided.
+		negotiation.Authentication = false
 		return nil
 	}
 
@@ -2207,13 +2215,21 @@ func (a *Authenticator) handleClientAuthentication(ctx context.Context, negotiat
 			break
 		}
 
-		// Convert server response to method
-		selectedMethod := bitmaskToAuthMethod(serverResponse)
+		// Convert server response to method. The server must pick exactly one of
+		// the methods still on offer; map the bit back to the client's OWN offered
+		// method (so e.g. IDTOKENS, which shares a bit with SCITOKENS, stays
+		// IDTOKENS) and never run a method that was not offered.
+		selectedMethod := AuthMethod("")
+		if serverResponse > 0 && serverResponse&availableBitmask == serverResponse {
+			for _, m := range clientMethods {
+				if authMethodToBitmask(m) == serverResponse {
+					selectedMethod = m
+					break
+				}
+			}
+		}
 		if selectedMethod == "" {
-			slog.Debug(fmt.Sprintf("🔐 CLIENT: Invalid method bitmask from server: 0x%x", serverResponse), "destination", "cedar")
-			// Remove this invalid method and continue
-			availableBitmask &= ^serverResponse
-			continue
+			return fmt.Errorf("server selected an authentication method that was not offered (bitmask 0x%x)", serverResponse)
 		}
 
 		slog.Debug(fmt.Sprintf("🔐 CLIENT: Attempting authentication method: %s", selectedMethod), "destination", "cedar")
@@ -2232,6 +2248,7 @@ func (a *Authenticator) handleClientAuthentication(ctx context.Context, negotiat
 
 		slog.Debug(fmt.Sprintf("✅ CLIENT: Authentication successful with method: %s", selectedMethod), "destination", "cedar")
 		negotiation.NegotiatedAuth = selectedMethod
+		negotiation.Authentication = true
 
 		// After successful authentication, perform key exchange as in HTCondor's Authentication::exchangeKey
 		// For modern HTCondor with AESGCM crypto, the server always sends an empty key
